@@ -29,7 +29,7 @@ def gen_case(rng, max_gates=30, xor_rich=None, caps=None, feats=None, sims=None,
 
 def key_of(case):
     return [G.net_text(case['net'])] + [case[k] for k in ('cls', 'c_reuse', 'strip_forks', 'sims', 'caps', 'caps_seed', 'delay_seed',
-                                                          'kmax', 'polind', 'dtype', 'stim_seed', 'multi')]
+                                                          'kmax', 'polind', 'dtype', 'stim_seed', 'multi')] + [case.get('epochs', 1)]
 
 
 class Run:
